@@ -390,6 +390,28 @@ Cleanup(S, isolates, singletons, multiedges, connected, relabel) ==
   IN {Ok(IF relabel THEN ConvertLabels(s4) ELSE s4) : s4 \in s4s}
      \cup (IF ~multiedges THEN NotSortable(S) ELSE {})
 
+\* Where merge_duplicate_edges / cleanup leave the merged edges in the edge order is not documented
+\* (C05 speaks of the edge *set*; C06's insertion order says nothing about a merge).  The trace
+\* specifications therefore compare up to the edge order for these two calls, and - when cleanup
+\* relabels - up to which of the new integer ids each surviving edge received, read off the old label
+\* that the relabelling records.
+PermuteEdges(S, f) ==
+  LET inv(e) == CHOOSE x \in EdgeSet(S) : f[x] = e IN
+  [S EXCEPT !.edges = [i \in DOMAIN S.edges |-> f[S.edges[i]]],
+            !.e2n = [e \in EdgeSet(S) |-> S.e2n[inv(e)]],
+            !.eattr = [e \in EdgeSet(S) |-> S.eattr[inv(e)]],
+            !.n2e = [n \in DOMAIN S.n2e |-> {f[e] : e \in S.n2e[n]}]]
+AlignEdges(st, post, relabel) ==
+  IF Range(st.edges) # Range(post.edges) \/ Len(st.edges) # Len(post.edges) \/ DOMAIN post.eattr # Range(post.edges)
+    THEN st
+  ELSE IF ~relabel THEN [st EXCEPT !.edges = post.edges]
+  ELSE LET lab(T, e) == IF LabelKey \in DOMAIN T.eattr[e] THEN T.eattr[e][LabelKey] ELSE <<-1>>
+           cand(e) == {x \in EdgeSet(post) : lab(post, x) = lab(st, e)}
+       IN IF \E e \in EdgeSet(st) : Cardinality(cand(e)) # 1 THEN st
+          ELSE LET f == [e \in EdgeSet(st) |-> CHOOSE x \in cand(e) : TRUE]
+               IN IF \E a, b \in EdgeSet(st) : a # b /\ f[a] = f[b] THEN st
+                  ELSE [PermuteEdges(st, f) EXCEPT !.edges = post.edges]
+
 (* ---- dispatcher --------------------------------------------------------------- *)
 OpDefaults ==
   [name |-> "", n |-> None, n2 |-> None, e |-> None, e2 |-> None, m |-> <<>>, id |-> None,
